@@ -38,9 +38,11 @@ void ModelBuilder::addToTheoryFunction(SymRef sr, vec<PTRef> const & vals, PTRef
         std::string formalArgPrefix(Model::getFormalArgBaseNameForSymbol(logic, sr, formalArgDefaultPrefix));
 
         for (PTRef v : vals) {
-            std::stringstream ss;
-            ss << formalArgPrefix << uniqueNum++;
-            formalArgs.push(logic.mkVar(logic.getSortRef(v), ss.str().c_str()));
+            std::string name;
+            do {
+                name = formalArgPrefix + std::to_string(uniqueNum++);
+            } while (not Model::isFormalArgNameFree(logic, name, logic.getSortRef(v)));
+            formalArgs.push(logic.mkVar(logic.getSortRef(v), name.c_str()));
         }
         FunctionSignature templateSig(logic.protectName(sr), std::move(formalArgs), logic.getSortRef(sr));
         definitions.insert({sr, pair<FunctionSignature, ValuationNode *>{std::move(templateSig), nullptr}});
